@@ -452,7 +452,10 @@ func (c *Conn) OpenDownstream(ctx context.Context, filters []*message.Downstream
 			return errors.Errorf("failed subscribeDownstreamMetadata: %w", err)
 		}
 
-		resp, err = c.wireConn.SendDownstreamOpenRequest(ctx, &message.DownstreamOpenRequest{
+		c.wireConnMu.Lock()
+		wireConn := c.wireConn
+		c.wireConnMu.Unlock()
+		resp, err = wireConn.SendDownstreamOpenRequest(ctx, &message.DownstreamOpenRequest{
 			DesiredStreamIDAlias: alias,
 			DownstreamFilters:    filters,
 			DataIDAliases:        aliases,
